@@ -65,8 +65,9 @@ CHECKS = [
         "text": "State = history of requests.  Every ordered history of depth 2 (depth 3 inside colliding groups and the stateful "
         "family) over alphabets with colliding attributes - make_operator / field operators for up to 15 BC kinds (same value, other "
         "class; per-side mirrors; expression vs constant) on equal grids of another instance, class or coordinate system, PDE "
-        "rates / compiled rhs / solve for equations that differ only in BCs, bc_ops, constants or backend, expressions, and a "
-        "stateful family (interpolate, link fields into collections, change data) - runs in a forked child of an interpreter that "
+        "rates / compiled rhs / solve for equations that differ only in BCs, bc_ops, constants or backend, expressions, a "
+        "stateful family (interpolate, link fields into collections, change data), user-defined operators, and simulations "
+        "that share one interrupt or tracker object (9 kinds) - runs in a forked child of an interpreter that "
         "imported pde but executed nothing; the value of EVERY request must equal bit for bit its value alone in a fresh child "
         "(for interpolation: the value a brand-new field with the current contents gives).  Long histories (rotations of the full "
         "alphabet and their reverses) add first-writer-wins coverage; compiled operator caches are re-checked under real JIT.",
